@@ -680,6 +680,14 @@ func runFeed(c feedCase) feedEvent {
 			method := strings.TrimPrefix(c.Entry, "NewRequest")
 			hr, herr := http.NewRequest(method, "http://x.org/ak/x", bytes.NewReader(payload))
 			must(herr)
+			// what a client declares about the length of its body is its own business: every other
+			// request declares an absurd one (or none), the bytes that arrive are the same
+			switch len(payload) % 4 {
+			case 1:
+				hr.ContentLength = 1 << 62
+			case 3:
+				hr.ContentLength = -1
+			}
 			req, e := jsonapi.NewRequest(hr, schema)
 			err, hasRes = e, req != nil
 			if e == nil && req.Doc != nil {
@@ -883,6 +891,8 @@ type payCase struct {
 	NoDataForm     int    `json:"nodataform"`  // which members an object without data carries
 	Trailing       string `json:"trailing"`    // text after the resource object (white space is harmless, anything else is not JSON)
 	UnknownType    bool   `json:"unknowntype"` // the payload's type is not in the schema
+	// NumID: the id member is written as this JSON number ("" = the id is the string "x1"): an id is a string
+	NumID string `json:"numid"`
 }
 
 var trailings = []string{" \n", ",", "]", " x", " null", "{}", "}", "\x00"}
@@ -897,6 +907,8 @@ func renderPayload(c payCase) string {
 	}
 	if c.NoID {
 		b.WriteString(`{"type":"` + typ + `"`)
+	} else if c.NumID != "" {
+		b.WriteString(`{"type":"` + typ + `","id":` + c.NumID)
 	} else {
 		b.WriteString(`{"type":"` + typ + `","id":"x1"`)
 	}
@@ -946,6 +958,9 @@ func renderPayload(c payCase) string {
 			rels = append(rels, fmt.Sprintf(`%q:{"meta":3}`, r.Name))
 		case "listbadtail": // a list whose later member is of another type
 			rels = append(rels, fmt.Sprintf(`%q:{"data":[{"type":"ak2","id":"u"},{"type":"ak","id":"v"}]}`, r.Name))
+		case "listbadnoid": // a list with a member of another type that has no id, an empty one, or nothing at all
+			rels = append(rels, fmt.Sprintf(`%q:{"data":[%s]}`, r.Name,
+				[]string{`{"type":"ak"}`, `{"id":"","type":"ak"}`, `{"type":"ak2","id":"u"},{"type":"ak"}`, `{}`}[(c.NoDataForm+i)%4]))
 		case "badshape":
 			rels = append(rels, fmt.Sprintf(`%q:{"data":7}`, r.Name))
 		}
@@ -978,7 +993,7 @@ func runPayload(c payCase) payEvent {
 	payload := []byte(renderPayload(c))
 	for _, r := range c.Rels {
 		if r.Shape == "null" || r.Shape == "ident" || r.Shape == "list" || r.Shape == "identbadtype" ||
-			r.Shape == "identnotype" || r.Shape == "badtypenoid" || r.Shape == "listbadtail" {
+			r.Shape == "identnotype" || r.Shape == "badtypenoid" || r.Shape == "listbadtail" || r.Shape == "listbadnoid" {
 			ev.WantRels = append(ev.WantRels, r.Name)
 		}
 	}
@@ -1537,6 +1552,7 @@ func codecOtherModes(mode string, rng *rand.Rand, stt *stats, w *evWriter, n int
 			if i%17 == 3 {
 				sm2 = "listbadtail"
 			}
+
 			if i%19 == 5 {
 				so2 = []string{"badlinks", "badmeta"}[(i/19)%2]
 				stt.class("shape:badlinks-or-meta")
@@ -1577,6 +1593,19 @@ func codecOtherModes(mode string, rng *rand.Rand, stt *stats, w *evWriter, n int
 				if rng.Intn(3) == 0 {
 					c.UnknownRelName = "kstring" // a name the type has, as an attribute: no relationship of that name
 				}
+			}
+			switch {
+			case i%31 == 9:
+				// a list with a member of another type that has no id (or an empty one): nothing else to stumble on
+				c.Attrs, c.Trailing, c.UnknownRel, c.UnknownType = map[string]string{}, "", "", false
+				c.Rels = []relShape{{Name: "o", To1: true, Shape: "ident", Listed: []string{"u"}}, {Name: "m", To1: false, Shape: "listbadnoid", Listed: []string{}}}
+				stt.class("shape:listbadnoid")
+			case i%29 == 11:
+				// an id written as a JSON number on an otherwise blameless payload: an id is a string
+				c.Attrs, c.Trailing, c.UnknownRel, c.UnknownType, c.NoID = map[string]string{"kstring": `"s"`}, "", "", false, false
+				c.Rels = []relShape{{Name: "o", To1: true, Shape: "ident", Listed: []string{"u"}}, {Name: "m", To1: false, Shape: "list", Listed: []string{"v", "u"}}}
+				c.NumID = []string{"42", "-7", "0", "1e3", "4.50"}[(i/29)%5]
+				stt.class("numeric-id")
 			}
 			ev := runPayload(c)
 			stt.Calls += 3
